@@ -32,12 +32,47 @@ def gen_cases(rng, n):
         else:
             continue
         vs = vars_of(phi) or ["x"]
+        bconsts = []
+        if rng.random() < 0.35:
+            # declared constants as interval bounds (with and without a unit)
+            import copy
+            phi = copy.deepcopy(phi)
+            tn = [q for q in subformulas(phi) if q["op"] in TIMED]
+            rng.shuffle(tn)
+            for j, q in enumerate(tn[:2]):
+                which = rng.choice(["a", "b"])
+                nm = "kb%d" % (j + 1)
+                q[which + "t"] = nm
+                if rng.random() < 0.4:
+                    q[which + "u"] = "s"
+                    if which == "a" and rng.random() < 0.5:
+                        q["bu"] = "s"
+                bconsts.append([nm, str(q[which])])
         subs, main, cdecl, named = decompose(rng, phi, S)
+        cdecl = cdecl + bconsts
         if not subs and not cdecl:
             continue
+        def strip_spelling(p_):
+            q = {k_: v_ for k_, v_ in p_.items() if k_ not in ("at", "bt", "au", "bu")}
+            for k_ in ("l", "r"):
+                if k_ in q:
+                    q[k_] = strip_spelling(q[k_])
+            return q
+        phi_m = strip_spelling(phi)
+        def as_written(p_):
+            q = {k_: v_ for k_, v_ in p_.items() if k_ not in ("at", "bt", "a", "b")}
+            for k_ in ("l", "r"):
+                if k_ in q:
+                    q[k_] = as_written(q[k_])
+            if p_["op"] in TIMED:
+                q["aw"] = [p_["a"], 1]; q["bw"] = [p_["b"], 1]; q["au"] = p_.get("au", ""); q["bu"] = p_.get("bu", "")
+            return q
         style = rng.choice(["add_sub_spec", "one_text"])
         declare_names = rng.random() < 0.5
-        o1 = dt_obj(phi, S, vs, consts=cdecl)
+        o1 = dt_obj(phi_m, S, vs, consts=cdecl)
+        if bconsts:
+            o1["written"] = as_written(phi)
+            o1["units"] = {"def": "s", "pnum": 1, "pden": 1, "punit": "s"}
         if style == "add_sub_spec":
             o1["subs"] = [s_ + ";" for s_ in subs]
             o1["text"] = "out = " + main
@@ -45,7 +80,7 @@ def gen_cases(rng, n):
             o1["text"] = " ; ".join(subs + ["out = " + main])
         if declare_names:
             o1["declare"] = vs + [nm for nm, _ in named]
-        o2 = dt_obj(phi, S, vs)
+        o2 = dt_obj(phi_m, S, vs)
         h = horizon(phi)
         N = rng.choice([1, 2, 3, 5, 8]) + (h if kind == "past" else 0)
         w = gen_trace(rng, vs, N, S)
